@@ -748,7 +748,12 @@ func ToEntry(n Node) (e *Entry) {
 			}
 		case "action":
 			for _, r := range fv.Interface().([]*Action) {
-				e.add(r.Name, ToEntry(r))
+				action := ToEntry(r)
+				if action.RPC == nil {
+					// When "action" has no "input" or "output" children
+					action.RPC = &RPCEntry{}
+				}
+				e.add(r.Name, action)
 			}
 		case "augment":
 			for _, a := range fv.Interface().([]*Augment) {
